@@ -678,7 +678,14 @@ fn generate_moves_for_piece(
                 new_moves.push(new_board);
             }
         } else {
-            new_moves.push(new_board);
+            // captures only, a double push is not possible here but an existing en passant target
+            // still expires and a capture onto the last rank still promotes
+            new_board.unset_pawn_double_move(zobrist_hasher);
+            if kind == Pawn && (mov.0 == BOARD_START || mov.0 == BOARD_END - 1) {
+                promote_pawn(&new_board, color, square_cords, mov, new_moves, zobrist_hasher);
+            } else {
+                new_moves.push(new_board);
+            }
         }
     }
 
